@@ -1,7 +1,8 @@
 (* GROUP D -- resource limits of the server model (Model/Server.v):
      D1  C14_connections     : the connection table never exceeds max_conns; every way a connection
                                ends removes its entry
-     D2  C14_subscriptions   : the per-user channel index is bounded by max (max_subs) 1
+     D2  C14_subscriptions   : the per-user channel index is bounded by max_subs (exactly: the gate
+                               of JOIN also applies to a user's first subscription)
      D3  C14_channel_capacity_at_admission, C14_payload, ChanCaps
      D4  C14_acl_entries
    Every invariant is stated as a one-step preservation lemma plus the reachable corollary. *)
@@ -215,10 +216,7 @@ Lemma h_join_gates cfg h me m c :
         acl_allowed (ch_join ch) n = true /\
         nmem n (ch_members ch) = false /\
         (ch_max_clients ch <=? N.of_nat (length (ch_members ch))) = false /\
-        match alookup (nu n) (inch (st c)) with
-        | Some l => max_subs cfg <=? N.of_nat (length l)
-        | None => false
-        end = false /\
+        (max_subs cfg <=? N.of_nat (length (match alookup (nu n) (inch (st c)) with Some l => l | None => [] end))) = false /\
         st (fst (h_join cfg h me m c)) =
           index_add (nu n) (get_str m "channel") (put_chan hd (insert_member ch n) (st c))
   end.
@@ -244,7 +242,7 @@ Proof.
   destruct (acl_allowed (ch_join ch) n) eqn:Hacl; cbn [negb]; [|reflexivity].
   destruct (nmem n (ch_members ch)) eqn:Hm; [reflexivity|].
   destruct (ch_max_clients ch <=? _) eqn:Hcap; [reflexivity|].
-  destruct (match alookup (nu n) (inch (st c)) with Some l => max_subs cfg <=? N.of_nat (length l) | None => false end)
+  destruct (max_subs cfg <=? N.of_nat (length (match alookup (nu n) (inch (st c)) with Some l => l | None => [] end)))
     eqn:Hsub; [reflexivity|].
   destruct (notify cfg "MEMBER_JOINED" _ _ _ _ _ _) as [okn c1] eqn:En. apply notify_st' in En.
   destruct okn; cbn [negb]; [|exact En].
@@ -258,7 +256,7 @@ Qed.
 (* D2 : subscriptions                                                      *)
 (* ====================================================================== *)
 Definition SubsInv (cfg : scfg) (s : state) : Prop :=
-  forall u l, alookup u (inch s) = Some l -> N.of_nat (length l) <= N.max (max_subs cfg) 1.
+  forall u l, alookup u (inch s) = Some l -> N.of_nat (length l) <= max_subs cfg.
 
 Lemma sadd_length x l : (length (sadd x l) <= S (length l))%nat.
 Proof. unfold sadd. destruct (smem x l); [lia|]. rewrite app_length. cbn [length]. lia. Qed.
@@ -282,14 +280,14 @@ Qed.
 
 (* an accepted index_add: the gate of h_join *)
 Lemma SubsInv_index_add cfg u cf s :
-  match alookup u (inch s) with Some l => max_subs cfg <=? N.of_nat (length l) | None => false end = false ->
+  (max_subs cfg <=? N.of_nat (length (match alookup u (inch s) with Some l => l | None => [] end))) = false ->
   SubsInv cfg s -> SubsInv cfg (index_add u cf s).
 Proof.
   intros Hg H k l. rewrite alookup_index_add. destruct (list_eqb k u); [|apply H].
-  intro K; injection K as <-. unfold idx_of.
+  intro K; injection K as <-. unfold idx_of. apply N.leb_gt in Hg.
   destruct (alookup u (inch s)) as [l0|].
-  - apply N.leb_gt in Hg. pose proof (sadd_length cf l0). lia.
-  - cbn. lia.
+  - pose proof (sadd_length cf l0). lia.
+  - cbn [length] in *. pose proof (sadd_length cf []). cbn [length] in *. lia.
 Qed.
 
 Lemma SubsInv_leave_st cfg hd cf n ch pick s : SubsInv cfg s -> SubsInv cfg (leave_st hd cf n ch pick s).
@@ -450,16 +448,16 @@ Proof. intros cfg ops. apply run_state_ind. intros s o. apply C14_subscriptions_
 
 (* holds for ALL op sequences *)
 Theorem C14_subscriptions : forall cfg ops u l,
-  alookup u (inch (run_state cfg init ops)) = Some l -> N.of_nat (length l) <= N.max (max_subs cfg) 1.
+  alookup u (inch (run_state cfg init ops)) = Some l -> N.of_nat (length l) <= max_subs cfg.
 Proof. intros cfg ops. apply C14_subscriptions_run. intros u l H. discriminate. Qed.
 
 Corollary C14_subscriptions_pos : forall cfg ops u l,
   0 < max_subs cfg ->
   alookup u (inch (run_state cfg init ops)) = Some l -> N.of_nat (length l) <= max_subs cfg.
-Proof. intros cfg ops u l Hpos H. pose proof (C14_subscriptions cfg ops u l H). lia. Qed.
+Proof. intros cfg ops u l _ H. exact (C14_subscriptions cfg ops u l H). Qed.
 
-(* the literal statement (bound max_subs) is FALSE when max_subs = 0: the first JOIN of a user
-   finds no index entry, so the gate is not consulted *)
+(* the bound is exact also for max_subs = 0: the gate is consulted on a user's FIRST join as well
+   (a user without an index entry counts as having 0 subscriptions), so every JOIN is refused *)
 Definition subs0_cfg : scfg :=
   {| domain := bs "localhost"; has_mod := false; op_auth := false; op_fbp := false; op_fev := false; op_spp := false;
      proto := []; max_clients := 10; max_subs := 0; max_payload_cfg := 1000; max_inflight := 10; max_message := 1000;
@@ -470,20 +468,16 @@ Definition subs0_ops : list op :=
    Frame 1 (build "IDENTIFY" [(bs "username", VStr (bs "alice"))]) None [] [];
    Frame 1 (build "JOIN" [(bs "id", VNum 1); (bs "channel", VStr (bs "!room@localhost"))]) None [] []].
 
-Example C14_subscriptions_zero_counterexample :
+(* with max_subs = 0 the first JOIN is refused with POLICY_VIOLATION (not recoverable, so the
+   connection is closed); neither the index nor the channel table gets an entry *)
+Example C14_subscriptions_zero_first_join_refused :
   ops_ok subs0_cfg init subs0_ops /\
   max_subs subs0_cfg = 0 /\
-  alookup (bs "alice") (inch (run_state subs0_cfg init subs0_ops)) = Some [bs "!room@localhost"].
+  last (run subs0_cfg init subs0_ops) [] = [OClose 1 (err_msg (Some 1) "POLICY_VIOLATION")] /\
+  inch (run_state subs0_cfg init subs0_ops) = [] /\
+  inch (run_state subs0_cfg init (removelast subs0_ops)) = [] /\
+  chans (run_state subs0_cfg init subs0_ops) = [] /\ conns (run_state subs0_cfg init subs0_ops) = [].
 Proof. vm_compute. repeat split; try exact I; right; intros cn K; discriminate. Qed.
-
-(* the bound max 1 is reached but not exceeded: the second JOIN is refused with POLICY_VIOLATION,
-   which is not recoverable, so the connection is closed and the user leaves everything *)
-Example C14_subscriptions_zero_second_join_refused :
-  let ops := subs0_ops ++
-     [Frame 1 (build "JOIN" [(bs "id", VNum 2); (bs "channel", VStr (bs "!other@localhost"))]) None [] []] in
-  last (run subs0_cfg init ops) [] = [OClose 1 (err_msg (Some 2) "POLICY_VIOLATION")] /\
-  inch (run_state subs0_cfg init ops) = [] /\ conns (run_state subs0_cfg init ops) = [].
-Proof. vm_compute. repeat split; reflexivity. Qed.
 
 (* ====================================================================== *)
 (* D3 : channel capacity at admission, payload bound, per-channel caps     *)
@@ -1122,7 +1116,7 @@ Theorem C14_limits_reachable : forall cfg ops,
   let s := run_state cfg init ops in
   N.of_nat (length (conns s)) <= max_conns cfg /\
   (length (conns s) <= N.to_nat (max_conns cfg))%nat /\
-  (forall u l, alookup u (inch s) = Some l -> N.of_nat (length l) <= N.max (max_subs cfg) 1) /\
+  (forall u l, alookup u (inch s) = Some l -> N.of_nat (length l) <= max_subs cfg) /\
   (forall hd ch, alookup hd (chans s) = Some ch ->
      ch_max_payload ch <= max_payload_cfg cfg /\ ch_max_clients ch <= max_clients cfg).
 Proof.
@@ -1156,8 +1150,7 @@ Print Assumptions h_join_gates.
 Print Assumptions C14_subscriptions_step.
 Print Assumptions C14_subscriptions.
 Print Assumptions C14_subscriptions_pos.
-Print Assumptions C14_subscriptions_zero_counterexample.
-Print Assumptions C14_subscriptions_zero_second_join_refused.
+Print Assumptions C14_subscriptions_zero_first_join_refused.
 Print Assumptions C14_channel_capacity_at_admission.
 Print Assumptions C14_capacity_not_invariant.
 Print Assumptions C14_payload.
